@@ -1,16 +1,4 @@
 // Trusted prelude for the B+tree serializer units.
-// R10: Ord on K / K::Ref is one strict total order on the byte views (true for ArrayKey: both
-// compare the byte arrays lexicographically). ASSUMED.
-pub uninterp spec fn key_lt(a: Seq<u8>, b: Seq<u8>) -> bool;
-#[verifier::external_body]
-pub proof fn axiom_key_order(a: Seq<u8>, b: Seq<u8>, c: Seq<u8>)
-    ensures
-        !(key_lt(a, b) && key_lt(b, a)),
-        key_lt(a, b) || key_lt(b, a) || a == b,
-        !key_lt(a, a),
-        key_lt(a, b) && key_lt(b, c) ==> key_lt(a, c),
-{ }
-
 // BTreeMap iteration order (std): entries in strictly ascending key order, each key once.
 pub uninterp spec fn ents(m: Map<Seq<u8>, Seq<RecordHeader>>) -> Seq<(Seq<u8>, Seq<RecordHeader>)>;
 #[verifier::external_body]
